@@ -311,3 +311,42 @@ theorem C07_walk_service (pol : Policy) (w : World) (fi i : Nat) (f : FileD) (s 
     | some v1 => simp [acceptLeaves_eq]
 
 end Pgs.AST
+
+/-! ### entry point: a package -/
+namespace Pgs.AST
+
+/-- the files of a package, one after the other -/
+def filesF (w : World) : List Ref → Forest
+  | [] => .nil
+  | r :: rs =>
+    match w.files[r.file]? with
+    | some f => (fileF r.file f).append (filesF w rs)
+    | none => filesF w rs
+
+theorem acceptFiles_eq (pol : Policy) (v : Nat) (w : World) : ∀ (rs : List Ref) (ws : WS),
+    acceptFiles pol v w rs ws = walkForest pol v (filesF w rs) ws := by
+  intro rs
+  induction rs with
+  | nil => intro ws; rfl
+  | cons r rs ih =>
+    intro ws
+    simp only [acceptFiles, filesF]
+    cases hf : w.files[r.file]? with
+    | none => simp only [ih]
+    | some f => simp only [ih, walkForest_append, acceptFile_eq]
+
+/-- `Walk(v, package)`: the package node, then its files in request order, each with everything it
+    contains. -/
+theorem C07_walk_package (pol : Policy) (w : World) (i : Nat) (n : String) (files : List Ref)
+    (hp : (packagesOf w.files)[i]? = some (n, files)) :
+    walkFrom pol w (pkgRef i) false = walkForest pol 0 (.node (pkgRef i) (filesF w files) .nil) ⟨[], none⟩ := by
+  have hge : (pkgRef i).file ≥ 900000 := by simp [pkgRef]
+  have hidx : (pkgRef i).file - 900000 = i := by simp [pkgRef]
+  simp only [walkFrom, hge, if_true, hidx, hp, Bool.false_eq_true, if_false, walkForest]
+  cases hv : visit pol 0 (pkgRef i) ⟨[], none⟩ with
+  | mk ws1 o =>
+    cases o with
+    | none => simp
+    | some v1 => simp [acceptFiles_eq]
+
+end Pgs.AST
